@@ -234,6 +234,17 @@ def _flow_src():
         fn = f"cg_barearg_{nm}"
         names.append(fn)
         L += ["@proc", f"def {fn}(n: size, t: index, x: f32[6]):"] + ["    " + b for b in body] + [""]
+    # a callee whose configuration summary ends in two adjacent writes, a caller that writes one of the fields right after
+    # the call, and a caller whose branch is decided by the callee's value (analysis caches keyed by callee)
+    L += ["@proc", "def cg_set2(x: f32[6]):", "    Flow.mode = 0", "    Flow.lim = 1", ""]
+    for nm, body in {
+        "set2_then_write": ["cg_set2(x)", "Flow.lim = 3", "x[0] = 1.0"],
+        "set2_branch": ["cg_set2(x)", "if Flow.lim == 1:", "    x[1] = 1.0", "else:", "    x[1] = 2.0"],
+        "set2_guard": ["cg_set2(x)", "for j in seq(0, 6):", "    if j < Flow.lim:", "        x[j] = 4.0"],
+    }.items():
+        fn = f"cg_{nm}"
+        names.append(fn)
+        L += ["@proc", f"def {fn}(n: size, t: index, x: f32[6]):"] + ["    " + b for b in body] + [""]
     return "\n".join(L), names
 
 
